@@ -242,7 +242,7 @@ Qed.
 
 (* ---------------------------------------------------------------- a tracked read: track ... log *)
 Lemma Inv_track stk t c o j s :
-  Inv stk t s -> ctx_ok stk c -> obs_of c = Some o -> TopOK c s -> j < t ->
+  Inv stk t s -> ctx_ok stk c -> obs_of c = Some o -> TopOK c s -> j < t -> dep p o j ->
   let s1 := track c j s in
   Inv stk j s1 /\
   srcs (getn s1 o) = tracked_of (rlog (getn s1 o)) ++ [j] /\
@@ -251,7 +251,7 @@ Lemma Inv_track stk t c o j s :
   (forall k, rlog (getn s1 k) = rlog (getn s k)) /\
   subs (getn s1 j) = subscribe (subs (getn s j)) o.
 Proof.
-  intros I C Ho T Hjt. cbv zeta.
+  intros I C Ho T Hjt Hdep. cbv zeta.
   destruct (ctx_ok_obs stk c o C Ho) as [Hw Hin].
   destruct (inv_frame _ _ _ _ I o Hin) as (_&_&_&Hto&Hol&_).
   assert (Hlt : j < o) by lia.
@@ -271,7 +271,7 @@ Proof.
   destruct (track_misc c o j s Ho) as (Me & Mr & _ & Mn & Mh). fold s1 in Me, Mr, Mn, Mh.
   split; [|split; [|split; [|split; [|split]]]]; auto.
   - apply (Inv_transfer stk j t s s1); auto.
-    + apply (WF_track p c o j s Ho Hlt Hor). apply I.
+    + apply (WF_track p c o j s Ho Hlt Hor Hdep). apply I.
     + rewrite Me. apply I.
     + rewrite Mn. apply I.
     + intros i Hi. specialize (Hrest i). unfold nview_eq. rewrite (Hsro i (Hno i Hi)). intuition.
@@ -365,27 +365,28 @@ Proof. intros H w _. exists []. rewrite app_nil_r. auto. Qed.
 
 Lemma eval_spec i R : RSpec i R ->
   forall e c s stk t s' v,
-    expr_ok p i false e -> i <= t -> Inv stk t s -> ctx_ok stk c -> TopOK c s ->
+    expr_ok p i false e -> (forall x, occurs x e -> CtxDep p c x) ->
+    i <= t -> Inv stk t s -> ctx_ok stk c -> TopOK c s ->
     eval p R false c e s = (s', v) ->
     Inv stk t s' /\ TopOK c s' /\ PullRel i stk (fst c) s s' /\
     Growth c s s' (fun D => forall rest, rexpr (rlvl p i) (snd c) e (D ++ rest) = Some (v, rest)).
 Proof.
   intros HR e. induction e as [z|j|j|a IHa|a IHa b IHb|a IHa b IHb|g IHg a IHa b IHb|w a IHa];
-    intros c s stk t s' v Hok Hit I C T Hev; cbn [eval] in Hev; cbn [expr_ok] in Hok.
+    intros c s stk t s' v Hok Hdp Hit I C T Hev; cbn [eval] in Hev; cbn [expr_ok] in Hok; cbn [occurs] in Hdp.
   - inversion Hev; subst. split; auto. split; auto. split; [apply PullRel_refl|].
     apply Growth_refl. intros rest. reflexivity.
   - destruct Hok as [Hj He].
-    destruct (HR true c j s stk t s' v Hj ltac:(lia) He I C T Hev) as (I' & T' & P' & _ & _ & G').
+    destruct (HR true c j s stk t s' v Hj ltac:(lia) He (Hdp j eq_refl) I C T Hev) as (I' & T' & P' & _ & _ & G').
     split; auto. split; auto. split; [eapply PullRel_weaken; [|exact P']; lia|]. exact G'.
   - destruct Hok as [Hj He].
-    destruct (HR false c j s stk t s' v Hj ltac:(lia) He I C T Hev) as (I' & T' & P' & _ & _ & G').
+    destruct (HR false c j s stk t s' v Hj ltac:(lia) He (Hdp j eq_refl) I C T Hev) as (I' & T' & P' & _ & _ & G').
     split; auto. split; auto. split; [eapply PullRel_weaken; [|exact P']; lia|]. exact G'.
-  - apply (IHa (fst c, false) s stk t s' v Hok Hit I (ctx_ok_untr stk c C) T Hev).
+  - apply (IHa (fst c, false) s stk t s' v Hok Hdp Hit I (ctx_ok_untr stk c C) T Hev).
   - destruct Hok as [Ha Hb].
     destruct (eval p R false c a s) as [s1 x] eqn:E1.
     destruct (eval p R false c b s1) as [s2 y] eqn:E2. inversion Hev; subst.
-    destruct (IHa c s stk t s1 x Ha Hit I C T E1) as (I1 & T1 & P1 & G1).
-    destruct (IHb c s1 stk t s' y Hb Hit I1 C T1 E2) as (I2 & T2 & P2 & G2).
+    destruct (IHa c s stk t s1 x Ha (fun z Hz => Hdp z (or_introl Hz)) Hit I C T E1) as (I1 & T1 & P1 & G1).
+    destruct (IHb c s1 stk t s' y Hb (fun z Hz => Hdp z (or_intror Hz)) Hit I1 C T1 E2) as (I2 & T2 & P2 & G2).
     split; auto. split; auto. split; [eapply PullRel_trans; eauto|].
     intros w0 Hw. destruct (G1 w0 Hw) as (D1 & R1 & Q1). destruct (G2 w0 Hw) as (D2 & R2 & Q2).
     exists (D1 ++ D2). split; [rewrite R2, R1, app_assoc; reflexivity|].
@@ -393,22 +394,22 @@ Proof.
   - destruct Hok as [Ha Hb].
     destruct (eval p R false c a s) as [s1 x] eqn:E1.
     destruct (eval p R false c b s1) as [s2 y] eqn:E2. inversion Hev; subst.
-    destruct (IHa c s stk t s1 x Ha Hit I C T E1) as (I1 & T1 & P1 & G1).
-    destruct (IHb c s1 stk t s' y Hb Hit I1 C T1 E2) as (I2 & T2 & P2 & G2).
+    destruct (IHa c s stk t s1 x Ha (fun z Hz => Hdp z (or_introl Hz)) Hit I C T E1) as (I1 & T1 & P1 & G1).
+    destruct (IHb c s1 stk t s' y Hb (fun z Hz => Hdp z (or_intror Hz)) Hit I1 C T1 E2) as (I2 & T2 & P2 & G2).
     split; auto. split; auto. split; [eapply PullRel_trans; eauto|].
     intros w0 Hw. destruct (G1 w0 Hw) as (D1 & R1 & Q1). destruct (G2 w0 Hw) as (D2 & R2 & Q2).
     exists (D1 ++ D2). split; [rewrite R2, R1, app_assoc; reflexivity|].
     intros rest. cbn [rexpr]. rewrite <- app_assoc, Q1, Q2. reflexivity.
   - destruct Hok as (Hg & Ha & Hb).
     destruct (eval p R false c g s) as [s1 x] eqn:E1.
-    destruct (IHg c s stk t s1 x Hg Hit I C T E1) as (I1 & T1 & P1 & G1).
+    destruct (IHg c s stk t s1 x Hg (fun z Hz => Hdp z (or_introl Hz)) Hit I C T E1) as (I1 & T1 & P1 & G1).
     destruct (Z.eqb x 0) eqn:Ex.
-    + destruct (IHb c s1 stk t s' v Hb Hit I1 C T1 Hev) as (I2 & T2 & P2 & G2).
+    + destruct (IHb c s1 stk t s' v Hb (fun z Hz => Hdp z (or_intror (or_intror Hz))) Hit I1 C T1 Hev) as (I2 & T2 & P2 & G2).
       split; auto. split; auto. split; [eapply PullRel_trans; eauto|].
       intros w0 Hw. destruct (G1 w0 Hw) as (D1 & R1 & Q1). destruct (G2 w0 Hw) as (D2 & R2 & Q2).
       exists (D1 ++ D2). split; [rewrite R2, R1, app_assoc; reflexivity|].
       intros rest. cbn [rexpr]. rewrite <- app_assoc, Q1, Ex, Q2. reflexivity.
-    + destruct (IHa c s1 stk t s' v Ha Hit I1 C T1 Hev) as (I2 & T2 & P2 & G2).
+    + destruct (IHa c s1 stk t s' v Ha (fun z Hz => Hdp z (or_intror (or_introl Hz))) Hit I1 C T1 Hev) as (I2 & T2 & P2 & G2).
       split; auto. split; auto. split; [eapply PullRel_trans; eauto|].
       intros w0 Hw. destruct (G1 w0 Hw) as (D1 & R1 & Q1). destruct (G2 w0 Hw) as (D2 & R2 & Q2).
       exists (D1 ++ D2). split; [rewrite R2, R1, app_assoc; reflexivity|].
